@@ -54,9 +54,10 @@ def jobs(pid, tier):
     if pid == 'C01':
         if q:
             return [vrt('C01', [r'once_(int|counted)_[a-z]+-[a-z]+_(none|wait)', r'once_(int|counted|void)_(nop|assign)_.*',
-                                r'once_(moveonly|ref|void)_(val-val|val-exc|val-mvcall|drop-mvdie|exc-mvdie)_(coro|hasv)'], bound=2, workers=2)]
+                                r'once_(moveonly|ref|void)_(val-val|val-exc|val-mvcall|drop-mvdie|exc-mvdie|val-start|start-start)_(coro|hasv|cohasv)',
+                                r'once_(int|counted)_(val-exc|exc-drop|exc-start)_cohasv'], bound=2, workers=2)]
         return [vrt('C01', [r'once_[a-z]+_[a-z]+-[a-z]+_none', r'once_[a-z]+_(nop|assign)_.*'], unbounded=True, workers=2),
-                vrt('C01', [r'once_[a-z]+_[a-z]+-[a-z]+_(wait|coro|hasv)'], bound=3, workers=4),
+                vrt('C01', [r'once_[a-z]+_[a-z]+-[a-z]+_(wait|coro|hasv|cohasv)'], bound=3, workers=4),
                 vrt('C01', [r'once_[a-z]+_[a-z]+-[a-z]+-[a-z]+_.*'], bound=3, workers=8)]
     if pid == 'C02':
         if q:
@@ -107,10 +108,10 @@ def jobs(pid, tier):
         OKK = r'(coawait|runfn|runfnbig|detached|detachedbig)'
         LOST = r'(coawaitfut|runasync|resumesp)'
         if q:
-            return [vrt('C11', [rf'pool_w[12]_{OKK}_(stop|dtor|selfstop|racestop)', r'pool_w2_dependent_.*', r'pool_w[12]_live_.*'], bound=2, workers=2),
+            return [vrt('C11', [rf'pool_w[12]_{OKK}_(stop|dtor|selfstop|racestop)', r'pool_w2_dependent_.*', r'pool_w[12]_live_.*', r'pool_w[12]_selfdestroy.*'], bound=2, workers=2),
                     vrt('C11', [rf'pool_w1_{OKK}-{OKK}_(stop|dtor|selfstop)', r'pool_w2_(coawait-runfn|coawait-detachedbig|runfnbig-detached|coawait-coawait)_(stop|selfstop)', r'pool_w1_(coawait-runfn|detached-detachedbig)_racestop'], bound=2, workers=4),
                     vrt('C11', [rf'pool_w1_{LOST}_(stop|dtor)'], bound=2, workers=2, max_viol=10000000)]
-        return [vrt('C11', [rf'pool_w[123]_{OKK}_(stop|dtor|selfstop|racestop)', r'pool_w[23]_dependent_.*', r'pool_w[12]_live_.*'], bound=3, workers=2),
+        return [vrt('C11', [rf'pool_w[123]_{OKK}_(stop|dtor|selfstop|racestop)', r'pool_w[23]_dependent_.*', r'pool_w[12]_live_.*', r'pool_w[12]_selfdestroy.*'], bound=3, workers=2),
                 vrt('C11', [rf'pool_w[12]_{OKK}-{OKK}_(stop|dtor|selfstop|racestop)'], bound=3, workers=8),
                 vrt('C11', [rf'pool_w3_{OKK}-{OKK}_(stop|selfstop)'], bound=1, workers=8),
                 vrt('C11', [rf'pool_w[12]_{OKK}_(stop|dtor|selfstop|racestop)', r'pool_w2_dependent_.*'], bound=2, workers=4, spurious=True),
@@ -132,7 +133,7 @@ def jobs(pid, tier):
     if pid == 'C15':
         if q:
             return [seq('C15'), vrt('C15', [r'sig_.*'], bound=2, workers=4)]
-        return [seq('C15'), vrt('C15', [r'sig_l1_.*'], unbounded=True, workers=4), vrt('C15', [r'sig_l2_.*'], bound=3, workers=8)]
+        return [seq('C15'), vrt('C15', [r'sig_l1_.*', r'sig_hookup_.*'], unbounded=True, workers=4), vrt('C15', [r'sig_l2_.*'], bound=3, workers=8)]
     if pid == 'C18':
         return [seq('C18'), vrt('C18', [r'cb_.*'], unbounded=True, workers=2)]
     if pid == 'C19':
